@@ -221,7 +221,9 @@ def quiet():
 
 
 def uname(i):
-    return "u%02d" % i
+    # deliberately NOT fixed width: u1 is a prefix/substring of u12, so id handling by substring or prefix
+    # (manifest filtering, file naming) is exposed
+    return "u%d" % i
 
 
 def signal_for(family, uid, chans, samples):
